@@ -234,7 +234,9 @@ CLAIMED = {
         'fail-closed) is among the names girepository/girparser.c tests element_name against or starts with "c:" '
         '(C15_vocabulary_contract, finite); for EVERY parameter slot of the C01 model, what the writer emits is read back by the '
         'compiler\'s reader as the same direction, caller-allocation, nullable, optional, skip and transfer '
-        '(C15_parameter_flags_roundtrip); the reader as found is refuted (C15_inout_nullable_refuted_before_fix, fix e1eedbc). Tie: GIRs '
+        '(C15_parameter_flags_roundtrip), scope, closure and destroy likewise (C15_callback_links_roundtrip), and nullability, skip and '
+        'transfer of every return value (C15_return_flags_roundtrip); the reader as found is refuted '
+        '(C15_inout_nullable_refuted_before_fix, fix e1eedbc). Tie: GIRs '
         'written by the real scanner passes for six generators (annotated callables, runtime-dump worlds, structure/virtual-method '
         'worlds, declaration worlds, constants cast to every kind of type with unions, structures with anonymous, nested and '
         'function-pointer members) and the 12 shipped tests/scanner/*-expected.gir files (output of the real C lexer; includes '
@@ -307,7 +309,8 @@ CLAIMED = {
         'with distinct names and well-formed options, parsing what the project\'s writer serializes gives the same annotations, an '
         'empty description and no complaint (C10_write_parse_roundtrip); a field without annotations is its description, a leading colon '
         'included, and annotations + colon + description as the writer lays them out give back both (C10_description_without_annotations, '
-        'C10_annotations_and_description; the first was false before fix 4782904). Tie: 600 (thorough 6000) field strings - serialized '
+        'C10_annotations_and_description; the first was false before fix 4782904); key=value options of array/attributes annotations come '
+        'back key by key in order, a value containing = included, for every list of distinct keys (C10_dict_options). Tie: 600 (thorough 6000) field strings - serialized '
         'annotation sets in varying layouts, a malformed stream and character soup - go through the real _parse_fields and are compared '
         'with Model.C10.parse_fields inside Coq (success, every annotation with its options, description), the real '
         '_serialize_annotations is compared byte for byte with the model, and whole blocks (identifier kinds, parameters, multi-paragraph '
